@@ -67,7 +67,7 @@ class C11(vlib.PropertyCheck):
               'whatever the caller\'s umask, the descriptor is open on it, every other file is unchanged; C11_temp_history: over any history of calls the '
               'names stay pairwise distinct, the umask ends as it began, no file disappears; C11_temp_umask_restored: on every path; C11_temp_no_fault / '
               'C11_temp_name_fits: for every environment, template, prior buffer content and len up to the buffer no access is out of bounds; '
-              'C11_temp_failure_keeps_template. Trusted there: that glibc\'s mkstemp and the kernel behave like the model\'s world. Expansion and the variable store are '
+              'C11_temp_failure_keeps_template; exactness: C11_temp_exact_ok (TMPDIR = dir, a name that fits: the file <dir>/<template><first free candidate> is created with mode 0600 and nothing else changes, the caller\'s buffer holds the longest prefix that fits len, terminated, the rest untouched), C11_temp_name_branches (TMPDIR over TMP over /tmp, cut at 255 bytes), C11_temp_refused (a name that lost part of its XXXXXX, or a missing directory: -1 and nothing at all has changed). Trusted there: that glibc\'s mkstemp and the kernel behave like the model\'s world. Expansion and the variable store are '
               'parameters (property C10): for texts with expansion characters only faults, termination (watchdog), spawning and the '
               'absence of state after free are compared. The tie: extracted model vs ASan/UBSan build with system, popen, fork, '
               'vfork, exec*, posix_spawn* intercepted at link time, on structured-random and fully random byte files, 600 unmatched '
@@ -113,7 +113,8 @@ class C11(vlib.PropertyCheck):
 
     def search_gen(self, tier, rng):
         return (L.gen_unmatched(rng, [159, 160, 161, 255]) + L.gen_tables(rng, [19, 20, 159, 160, 161, 255]) +
-                L.gen_lifecycle(rng, 100) + L.gen_random_files(rng, 100, quiet=False) + L.gen_open(rng) + L.gen_world(rng, 'quick'))
+                L.gen_lifecycle(rng, 100) + L.gen_random_files(rng, 100, quiet=False) + L.gen_open(rng) + L.gen_world(rng, 'quick') +
+                ['temp 1000'] + L.gen_tmpf(rng, 600))
 
     # level A: everything but the raw counters (a quiet parse prints q:ok unless a process was created for text
     # that contains no backquote, %exec or %preproc - the harness decides that, the expansion is not modelled there)
@@ -126,6 +127,8 @@ class C11(vlib.PropertyCheck):
     def oracle(self, case, iout):
         if iout.startswith('temp '):
             return None if iout == 'temp fail=0 badmode=0 dup=0 outside=0' else 'temporary files: ' + iout
+        if case.startswith('tmpf '):
+            return self.tmpf_oracle(case, iout)
         if not case.startswith('hist '):
             return None
         spawned = sum(int(x) for x in re.findall(r'\bsp=(\d+)', iout))
@@ -136,6 +139,33 @@ class C11(vlib.PropertyCheck):
             return 'heap blocks left behind after spifconf_free_subsystem: l=' + ','.join(m)
         if 'vars=1' in iout or 'tabs=1' in iout:
             return 'spifconf_free_subsystem left state behind: ' + ' '.join(re.findall(r'f:\S+', iout))
+        return None
+
+    @staticmethod
+    def tmpf_oracle(case, iout):
+        """what the property (theorems C11_temp_*) says about one call, read off the implementation's output alone: the
+        model is regenerated from the source, so a changed source changes the model with it - these clauses do not move"""
+        t = case.split(' ')
+        f = dict(x.split('=', 1) for x in iout.split(' ') if '=' in x)
+        if not {'ret', 'tpl', 'um', 'mode', 'files'} <= set(f):
+            return None
+        envk, tplhex, um, picks, nexist = t[1], t[3], int(t[6], 8), t[7], int(t[8])
+        if int(f['um'], 8) != um:
+            return 'spiftool_temp_file left the process umask at %s (it was %o before the call)' % (f['um'], um)
+        if f['ret'] == 'ok' and f['mode'] != '600':
+            return 'the file obtained has mode %s, not 0600 (caller\'s umask %o)' % (f['mode'], um)
+        if f['ret'] == '-1' and f['tpl'] != (tplhex if tplhex != '-' else '-'):
+            return 'the call failed but changed the caller\'s buffer'
+        if f['files'] != '-' or (envk in 'DMB' and nexist):
+            listing = [] if f['files'] == '-' else [x.rsplit(':', 1) for x in f['files'].split(',')]
+            tpl = '' if tplhex == '-' else tplhex
+            old = [tpl + p.encode().hex() for p in (picks.split(',')[:nexist] if picks != '-' else [])]
+            for nm in old:
+                if [nm, '644'] not in listing:
+                    return 'a file that existed before the call is gone or has another mode: %s' % nm
+            new = [x for x in listing if x[0] not in old]
+            if f['ret'] == 'ok' and (len(new) != 1 or new[0][1] != '600'):
+                return 'after a successful call the directory holds %s besides the files that existed' % (new,)
         return None
 
     def nontrivial(self, case, mout):
